@@ -55,6 +55,11 @@ def _slice_specs(n):
     specs = [slice(None), slice(0, 0), slice(1, None), slice(None, -1), slice(None, None, 2), slice(None, None, -1),
              slice(-2, None), [], [0] if n else [], [n - 1, 0] if n else [], [-1] if n else [],
              [0, 0] if n else [], tuple(range(n)), list(range(n))[::-1]]
+    # index lists that start at their minimum, end at their maximum and have the length of the range, but are NOT the range
+    if n >= 3:
+        specs += [[0, 0, 2], [0, 2, 2]]
+    if n >= 4:
+        specs += [[0, 2, 1, 3], [0, 0, 3, 3], [1, 3, 2, 4] if n >= 5 else [0, 2, 1, 3]]
     return specs
 
 
@@ -210,6 +215,17 @@ def scen_CacheDataset():
     for d, ds, r in O.mk_sources():
         if r.idx:
             yield d + '.cache()', ds.cache(), r, r.keys or []
+            # the cache filled OUT OF ORDER before anything is observed (last example first, by index and by key)
+            if r.n >= 2 and all(o[0] == 'v' for o in r.outs):
+                c = ds.cache()
+                for i in list(range(r.n))[::-1]:
+                    c[i - r.n] if i % 2 else c[i]
+                yield d + '.cache() filled back to front', c, r, r.keys or []
+                if r.keys:
+                    c = ds.cache()
+                    for k in [r.keys[-1]] + list(r.keys[:-1]):
+                        c[k]
+                    yield d + '.cache() filled by key, last key first', c, r, r.keys or []
 
 
 SCENARIOS = {k[5:]: v for k, v in list(globals().items()) if k.startswith('scen_')}
